@@ -109,6 +109,7 @@ func SortedKeys(m map[string]int64) []string {
 //	slow-flusher  the flush goroutine's points sleep 0.2–3 ms (queue fills up)
 //	slow-commit   commit.gotTs/commit.written sleep 0.1–2 ms (readers wait on commitMark)
 //	slow-rotate   rawset points sleep 50µs–1ms (readers overlap the rotation)
+//	slow-begin    a third of the Begins sleep 0.3–3.3 ms between taking the timestamp and the wait
 func (h *Hooks) SetProfile(profile string, seed int64) {
 	h.dmu.Lock()
 	h.profile = profile
@@ -166,6 +167,13 @@ func (h *Hooks) point(name string) {
 	case "slow-commit":
 		if isCommit {
 			d = time.Duration(100+2*y) * time.Microsecond
+		} else if x < 100 {
+			runtime.Gosched()
+		}
+	case "slow-begin":
+		// Begin is stretched between taking its timestamp and waiting for the commit mark
+		if name == "readTs.beforeWait" && x < 350 {
+			d = time.Duration(300+3*y) * time.Microsecond
 		} else if x < 100 {
 			runtime.Gosched()
 		}
